@@ -505,6 +505,89 @@ pub fn run(args: &Args) -> Report {
         }
     });
     repe::verif_hooks::set_probe(None);
+    // ---- the cancel may also come from the idle-transfer watchdog (spawn_watchdog on a TransferRegistry): a parked producer must
+    // be woken by it like by any other cancel. Four scenarios in parallel (credit / reconnect waiter, one or two transfers).
+    if !miri {
+        let found: Mutex<Vec<(String, String)>> = Mutex::new(vec![]);
+        let done = AtomicU64::new(0);
+        std::thread::scope(|sc| {
+            for k in 0..4u64 {
+                let (found, done, hb) = (&found, &done, hb.as_ref());
+                sc.spawn(move || {
+                    let reg: Arc<repe::TransferRegistry<u64>> = Arc::new(repe::TransferRegistry::new());
+                    let ctl = TransferControl::with_replay_capacity(4, 1 << 20);
+                    ctl.push_replay(0, 4, false, vec![0u8; 4]);
+                    ctl.record_sent(4);
+                    reg.register(k, ctl.clone());
+                    if k >= 2 {
+                        reg.register(100 + k, TransferControl::with_replay_capacity(64, 64));
+                    }
+                    repe::spawn_watchdog(reg.clone(), Duration::from_millis(150));
+                    let (tx, rx) = mpsc::channel();
+                    let c2 = ctl.clone();
+                    std::thread::spawn(move || {
+                        let far = Instant::now() + Duration::from_secs(3600);
+                        let r = if k % 2 == 0 {
+                            match c2.wait_for_credit(4, far) {
+                                Ok(()) => "Ok".to_string(),
+                                Err(CreditError::Cancelled(r)) => format!("Cancelled({r})"),
+                                Err(CreditError::Timeout) => "Timeout".to_string(),
+                            }
+                        } else {
+                            match c2.wait_for_reconnect(Duration::from_secs(3600)) {
+                                ReconnectOutcome::Cancelled(r) => format!("Cancelled({r})"),
+                                ReconnectOutcome::Timeout => "Timeout".to_string(),
+                                ReconnectOutcome::ResumeReady(_) => "ResumeReady".to_string(),
+                            }
+                        };
+                        let _ = tx.send(r);
+                    });
+                    // the watchdog ticks once per second (its floor) and cancels a transfer idle for longer than 150 ms
+                    let t0 = Instant::now();
+                    while !ctl.is_cancelled() && t0.elapsed() < Duration::from_secs(20) {
+                        std::thread::sleep(Duration::from_millis(5));
+                    }
+                    let what = if k % 2 == 0 { "credit" } else { "reconnect" };
+                    if !ctl.is_cancelled() {
+                        found.lock().unwrap().push(("inconclusive".into(), format!("the watchdog did not cancel the idle transfer within 20 s ({what} waiter)")));
+                        ctl.cancel("harness-cleanup");
+                        let _ = rx.recv_timeout(Duration::from_secs(5));
+                        return;
+                    }
+                    match rx.recv_timeout(Duration::from_secs(3)) {
+                        Ok(r) if r.starts_with("Cancelled") => {
+                            done.fetch_add(1, Ordering::SeqCst);
+                        }
+                        Ok(r) => found.lock().unwrap().push((format!("C12:watchdog-cancel:{what}:wrong-outcome"), format!("the idle watchdog cancelled the transfer; the parked {what} waiter returned {r}"))),
+                        Err(_) => {
+                            let stalled = hb.map(|h| h.max_gap_ms() > 1000).unwrap_or(false);
+                            ctl.verif_notify_all();
+                            let after = rx.recv_timeout(Duration::from_secs(5)).ok();
+                            if stalled {
+                                found.lock().unwrap().push(("inconclusive".into(), "watchdog-cancel wake late but the machine stalled".into()));
+                            } else {
+                                found.lock().unwrap().push((format!("C12:lost-wakeup:watchdog-cancel:{what}"), format!("the idle-transfer watchdog cancelled the transfer (is_cancelled() = true, reason {:?}) but the producer parked in wait_for_{what} was still parked 3 s later; after a state-free notify_all it returned {after:?}", ctl.cancel_reason())));
+                            }
+                        }
+                    }
+                    drop(reg);
+                });
+            }
+        });
+        for (sig, d) in found.into_inner().unwrap() {
+            if sig == "inconclusive" {
+                rep.inconclusive(d);
+            } else {
+                rep.violation(sig, d, json!({"part": "watchdog-cancel"}));
+            }
+        }
+        for _ in 0..4 {
+            rep.eval();
+        }
+        rep.distinct(&"watchdog-cancel-credit");
+        rep.distinct(&"watchdog-cancel-reconnect");
+        rep.set("producers_woken_by_the_idle_watchdog_cancel", json!(done.load(Ordering::SeqCst)));
+    }
     let mut classes: std::collections::BTreeMap<String, u64> = Default::default();
     let mut parks_total = 0u64;
     for (i, o) in results.into_inner().unwrap() {
